@@ -805,6 +805,10 @@ def walkdirs(top, prefix="", fsdecode=os.fsdecode):
                 dirblock.append((relprefix + name, name, kind, statvalue, entry.path))
         except NotADirectoryError:
             pass
+        except OSError as e:
+            # A symlink that loops back on itself is not a directory either.
+            if e.errno != errno.ELOOP:
+                raise
         dirblock.sort()
         yield (relroot, top), dirblock
 
